@@ -19,7 +19,10 @@ pub enum ProcessMessageError { ValidationError(ValidationError), Other }
 // TLS decoding of the MLS message (uninterpreted)
 pub uninterp spec fn mls_bytes_decode_ok(b: Seq<u8>) -> bool;      // both decoding steps succeed
 pub uninterp spec fn mls_bytes_content_type(b: Seq<u8>) -> ContentType;
-pub uninterp spec fn mls_bytes_group_id(b: Seq<u8>) -> GroupId;          // the group the MLS message names
+pub uninterp spec fn mls_bytes_group_id(b: Seq<u8>) -> GroupId;
+pub uninterp spec fn mls_is_own_message(v: MlsView, m: ProtocolMessage) -> bool;
+pub uninterp spec fn pending_staged(v: MlsView) -> StagedCommit;   // the own commit that is staged and not yet merged
+pub uninterp spec fn mls_bytes_protocol_message(b: Seq<u8>) -> ProtocolMessage;          // the group the MLS message names
 impl MlsMessageIn {
     pub uninterp spec fn src(&self) -> Seq<u8>;
     #[verifier::external_body]
@@ -28,7 +31,7 @@ impl MlsMessageIn {
     { unimplemented!() }
     #[verifier::external_body]
     pub fn try_into_protocol_message(self) -> (r: Result<ProtocolMessage, ProtocolMessageError>)
-        ensures r is Ok ==> r->Ok_0.ct() == mls_bytes_content_type(self.src()) && r->Ok_0.gid() == mls_bytes_group_id(self.src()), r is Err ==> !mls_bytes_decode_ok(self.src())
+        ensures r is Ok ==> r->Ok_0.ct() == mls_bytes_content_type(self.src()) && r->Ok_0.gid() == mls_bytes_group_id(self.src()) && r->Ok_0 == mls_bytes_protocol_message(self.src()), r is Err ==> !mls_bytes_decode_ok(self.src())
     { unimplemented!() }
 }
 impl ProtocolMessage {
@@ -100,9 +103,11 @@ impl MlsGroup {
     pub fn process_message<S: MdkStorageProvider>(&mut self, provider: &MdkProvider<S>, m: ProtocolMessage) -> (r: Result<openmls_types::ProcessedMessage, ProcessMessageError>)
         ensures final(self).view() == old(self).view(),
                 r is Ok ==> r->Ok_0.ep() == m.ep(),   // assumed OpenMLS fact: a processed message carries the epoch of its protocol message
+                // "this is a message I sent myself" is a fact about the message and the group (uninterpreted)
+                (r is Err && r->Err_0 == ProcessMessageError::ValidationError(ValidationError::CannotDecryptOwnMessage)) == mls_is_own_message(old(self).view(), m),
     { unimplemented!() }
     #[verifier::external_body]
-    pub fn pending_commit(&self) -> (r: Option<&StagedCommit>) ensures (r is Some) == self.view().has_pending_commit { unimplemented!() }
+    pub fn pending_commit(&self) -> (r: Option<&StagedCommit>) ensures (r is Some) == self.view().has_pending_commit, r is Some ==> *r->Some_0 == pending_staged(self.view()) { unimplemented!() }
     // merge of the own pending commit. Call-site obligation: a rollback snapshot of this group/epoch exists (C01)
     #[verifier::external_body]
     pub fn merge_pending_commit<S: MdkStorageProvider>(&mut self, provider: &MdkProvider<S>, Tracked(w): Tracked<&mut World>) -> (r: Result<(), MergeCommitError>)
